@@ -231,6 +231,14 @@ class Ctx:
             self.corr_broken.append({'unit': unit, 'input': inp, 'impl': impl, 'model': model})
 
 
+def cex_classes(cexs):
+    out = {}
+    for c in cexs:
+        k = json.dumps(c.get('match', {}), sort_keys=True)
+        out[k] = out.get(k, 0) + 1
+    return out
+
+
 def load_known():
     p = os.path.join(VERIF, 'known_findings.json')
     if not os.path.exists(p):
@@ -406,6 +414,7 @@ def do_check(pid, tier, seed):
             'exhaustive': ctx.exhaustive,
             'broken': broken,
             'known_findings_reobserved': sorted(known_hits.keys()),
+            'counterexample_classes': cex_classes(ctx.counterexamples),
             'notes': ctx.notes,
         },
         'assumptions': list(getattr(mod, 'ASSUMPTIONS', [])),
